@@ -148,7 +148,7 @@ def run_rows(chk, rows, configs, matcher, rule_prefix, tier, header_configs=None
             probs, decided = mres[0], mres[1]
             R3x = mres[2] if len(mres) > 2 else R3
             if not decided:
-                chk.note('%s [%s]: descriptor not decided (non-builtin fallback implementation)' % (nm, hc_name))
+                chk.note('%s [%s]: agrees with the specification on the operand grid (portable implementation without builtins; not decided for all operands)' % (nm, hc_name))
                 continue
             if probs:
                 for p in probs:
@@ -159,23 +159,58 @@ def run_rows(chk, rows, configs, matcher, rule_prefix, tier, header_configs=None
     return dict(tus=tus, it=it, vts=vts, tabs=tabs)
 
 
+def _header_call_hook(tu_):
+    """calls of functions defined in the runtime header, evaluated by the partial evaluator on concrete arguments"""
+    def hook(name, args):
+        f_ = tu_.functions.get(name)
+        if f_ is None or astdb.fn_body(f_) is None or not (astdb.file_of(f_) or '').endswith('w2c2_base.h'):
+            return None
+        it_ = pe.Interp([tu_], {})
+        it_.cur_tu = tu_
+        ps_ = [p_ for p_ in it_.explore(lambda: (name, list(args), {})) if not p_.aborted]
+        if len(ps_) != 1 or not isinstance(ps_[0].ret, int):
+            return None
+        return ps_[0].ret
+    return hook
+
+
 def int_matcher(row, rhs, ops, ctx):
     """descriptor match; a shape the descriptors do not recognise is evaluated exactly on a grid of boundary operands - a
     disagreement with the specification is a definite violation (with its witness), agreement leaves the row undecided (exit 2)"""
+    fallback = ctx.get('config') == 'fallback' and row['sem']['cls'] in sr.BITCOUNT_BUILTINS
+    if fallback:
+        # a bit-counting function of the header without compiler builtins: its body is evaluated by the partial evaluator on the
+        # grid operands (through the call hook of the expression evaluator); a disagreement is a violation, agreement on the
+        # grid is reported as what it is - not a decision for all operands
+        ct.CALL_HOOK[0] = _header_call_hook(ctx['tu'])
+    try:
+        return _int_matcher_grid(row, rhs, ops, ctx, fallback)
+    finally:
+        ct.CALL_HOOK[0] = None
+
+
+def _int_matcher_grid(row, rhs, ops, ctx, fallback):
     try:
         res = _int_matcher(row, rhs, ops, ctx)
+        if not res[1] and not res[0]:
+            bad = sr.refute_on_grid(row, rhs, ops, sr.W_OF[ctx['res_t']])
+            if bad:
+                return ['implementation without compiler builtins: %s' % bad], True
+            return res
         if not res[0]:
             # second, independent decision of the same row: exact evaluation on the boundary grid (also a self-test of the evaluator)
             try:
                 bad = sr.refute_on_grid(row, rhs, ops, sr.W_OF[ctx['res_t']], small=ctx.get('tier') != 'thorough')
             except AnalysisBroken:
-                bad = None          # fallback implementations without builtins are outside the evaluator
+                bad = None
             if bad:
                 return ['descriptor accepted the template but %s' % bad], True
         return res
     except AnalysisBroken as ex:
         bad = sr.refute_on_grid(row, rhs, ops, sr.W_OF[ctx['res_t']])
         if bad is None:
+            if fallback:
+                return [], False        # agrees on the grid; the arithmetic of the portable implementation is not decided for all operands
             raise AnalysisBroken('%s (agrees with the specification on the boundary grid, which does not decide all operands)' % ex)
         return ['%s (shape not recognised: %s)' % (bad, str(ex)[:160])], True
 
@@ -224,14 +259,13 @@ def run(chk):
         'compiler nor the composition over nestings (that induction is C03).')
     chk.assumptions = ['clang front end typing/macro expansion is correct',
                        'two\'s complement, 8-bit bytes, int = 32 bits, long long = 64 bits (checked for the slot typedefs)',
-                       'non-builtin fallback bit-counting algorithms are not decided']
+                       'the portable bit-counting functions of the header (compilers without __has_builtin) are evaluated exactly on about 400 operand '
+                       'patterns per function (every single bit, every run of ones, byte patterns) - refuted when wrong there, not proved for all operands']
     rows = int_rows()
     chk.require(len(rows) == 66, 'oracle lists %d integer numeric rows, expected 66' % len(rows))
     configs = [(0, 0), (1, 0)] if chk.tier == 'quick' else [(0, 0), (1, 0), (0, 1), (1, 1)]
-    header_configs = [('default', [])]
-    if chk.tier == 'thorough':
-        header_configs.append(('fallback', ['-U__GNUC__', '-U__clang__', '-D__inline__=inline',
-                                            '-D__builtin_va_list=void*']))
+    # the second configuration is the header as a compiler without the GNU builtins sees it (portable fallback implementations)
+    header_configs = [('default', []), ('fallback', ['-U__GNUC__', '-U__clang__', '-U__has_builtin', '-D__inline__=inline', '-D__builtin_va_list=void*'])]
     ctx = run_rows(chk, rows, configs, int_matcher, 'R01', chk.tier, header_configs)
     htu = astdb.header_tu('w2c2/w2c2_base.h', ['-std=gnu89'])
     check_trap_plumbing(chk, htu)
